@@ -63,6 +63,11 @@ func rulesC11(c *Ctx, r *Report) {
 	rulesNewickNames(c, r)
 	rulesNewickWriter(c, r)
 	rulesScanAlias(c, r, true)
+	rulesNumWidth(c, r, "formats/sam", "formats/bed", "formats/newick", "formats/smtext")
+	rulesSplitTag(c, r)
+	rulesWholeLines(c, r, "formats/sam")
+	rulesWholeLines(c, r, "formats/bed")
+	rulesFastaAutomaton(c, r)
 }
 
 // rulesPanics (PANIC).
